@@ -37,7 +37,7 @@ ASSUMPTIONS = ["reference model: reads are no-ops, selections are snapshots, a[.
 REQUIRED_FEATURES = ["pending_selection", "write_after_read", "alias_derivation",
                      "three_variables", "selection_of_selection", "write_through_alias"]
 BOUNDS = {"quick": "2 base arrays, 3 variables, every history of depth <= 4 over 9 selectors x 6 writes x 20 reads (all variables / sources), "
-                   "plus depth 5 for histories whose first two steps are derivations",
+                   "plus depth 5 for histories on the first base whose first two steps are derivations",
           "thorough": "3 base arrays, depth <= 5 complete, depth 6 after two derivations"}
 
 Q_BASES = [[2, 0, 3], [1, 2, 2]]
@@ -383,7 +383,7 @@ def run_shard(shard, tier, acc):
         nxt = []
         last = d >= depth
         for i, (hist, key, origin) in enumerate(frontier):
-            if d > depth and not (len(hist) >= 2 and hist[0][0] == "D" and hist[1][0] == "D"):
+            if d > depth and not (len(hist) >= 2 and hist[0][0] == "D" and hist[1][0] == "D" and (tier != "quick" or base == Q_BASES[0])):
                 continue
             if last and i % of != part:
                 continue
